@@ -146,7 +146,7 @@ pub fn check_on(c: &Case, ctx: &mut Ctx, ind: &mut Ind) -> Result<(), Failure> {
         let t = hist.len();
         let w0 = t - t.min(n);
         if c.stride > 1 && matches!(k, Kind::FastStoch | Kind::Er | Kind::Cci | Kind::Mfi) && (t > n + 2 || (n > 3000 && t > 4 && t + 2 < n)) && i % c.stride != 0 && i + 1 != len {
-            if k == Kind::Mfi && t >= 2 && tp_dd(&bars[t - 2]).to_f64() != tp_dd(&bar).to_f64() {
+            if k == Kind::Mfi && t >= 2 && may_flow(&bars[t - 2], &bar) {
                 mfi_big = mfi_big.max((tp_dd(&bar).to_f64() * bar.v).abs());
             }
             tp_big = tp_big.max(bar.tp().abs());
@@ -202,7 +202,7 @@ pub fn check_on(c: &Case, ctx: &mut Ctx, ind: &mut Ind) -> Result<(), Failure> {
                     let m = mfi_ref(&bars, n, SEP);
                     // largest single-bar flow since reset (every flow entered the running totals)
                     let a = &bars[t - 2];
-                    if tp_dd(a).to_f64() != tp_dd(&bar).to_f64() {
+                    if may_flow(a, &bar) {
                         mfi_big = mfi_big.max((tp_dd(&bar).to_f64() * bar.v).abs());
                     }
                     let den = m.pmf.add(m.nmf);
